@@ -957,10 +957,23 @@ func flagDiagValue(fn *ssa.Function, phi *ssa.Phi, leads func(*ssa.BasicBlock) b
 // the key has no candidates.
 func runC19Cand(c *Ctx) {
 	p := c.P
-	fn := p.Method("RuleMatrix", "checkExclude")
-	if fn == nil {
+	top := p.Method("RuleMatrix", "checkExclude")
+	if top == nil {
 		c.anchorMissing("(*RuleMatrix).checkExclude")
 		return
+	}
+	// checkExclude and the functions of the module it calls: the table of candidates may be built in one of them and
+	// consulted in another (the function split into "collect the candidates" and "check the exclude entries")
+	scope := p.withHelpers(top, 1)
+	fn := top // the function that builds the table
+	for _, f := range scope {
+		eachInstr(f, func(_ *ssa.BasicBlock, _ int, in ssa.Instruction) {
+			if mu, ok := in.(*ssa.MapUpdate); ok {
+				if rf, idx := rangePart(mu.Key); rf == "Matrix.Rows" && idx == 1 {
+					fn = f
+				}
+			}
+		})
 	}
 	// the candidate table: the map updated with Matrix.Rows keys
 	var rows ssa.Value
@@ -1073,9 +1086,58 @@ func runC19Cand(c *Ctx) {
 			c.ok("(*RuleMatrix).checkExclude|include values are candidates", apd.Pos(), "appended unless Equals() an existing candidate or the row is an expression")
 		}
 	}
+	// the values that denote the table in each function of the scope: the map itself where it is built, the result of the
+	// builder where it is called, the parameter of a function that is handed one of those
+	isRows := map[ssa.Value]bool{rows: true}
+	if fn != top {
+		k := -1
+		for _, b := range fn.Blocks {
+			if ret, ok := b.Instrs[len(b.Instrs)-1].(*ssa.Return); ok {
+				for i, r := range ret.Results {
+					if r == rows {
+						k = i
+					}
+				}
+			}
+		}
+		for _, call := range findCalls(top, FuncName(fn)) {
+			cv, ok := call.(*ssa.Call)
+			if !ok || k < 0 {
+				continue
+			}
+			if fn.Signature.Results().Len() == 1 {
+				isRows[cv] = true
+			}
+			for _, ref := range *cv.Referrers() {
+				if ex, ok := ref.(*ssa.Extract); ok && ex.Index == k {
+					isRows[ex] = true
+				}
+			}
+		}
+	}
+	for _, f := range scope {
+		for _, e := range p.callersOf(f) {
+			if e.Site == nil || e.Site.Common().IsInvoke() {
+				continue
+			}
+			off := 0
+			for i, a := range e.Site.Common().Args {
+				if isRows[a] && i+off < len(f.Params) {
+					isRows[f.Params[i+off]] = true
+				}
+			}
+		}
+	}
 	// exclude: subset test candidate-first
 	nSub := 0
-	for _, call := range findCalls(fn, "isYAMLValueSubset") {
+	var subCalls []ssa.CallInstruction
+	for _, f := range scope {
+		if FuncName(f) == "isYAMLValueSubset" {
+			continue // its recursive calls compare parts of a candidate with parts of an exclude value
+		}
+		subCalls = append(subCalls, findCalls(f, "isYAMLValueSubset")...)
+	}
+	for _, call := range subCalls {
 		nSub++
 		a := call.Common().Args
 		ci, fi := subsetParamRoles(p.Func("isYAMLValueSubset"))
@@ -1084,11 +1146,11 @@ func runC19Cand(c *Ctx) {
 		if ld, ok := a[ci].(*ssa.UnOp); ok {
 			if ia, ok := ld.X.(*ssa.IndexAddr); ok {
 				if ex, ok := ia.X.(*ssa.Extract); ok {
-					if lk, ok := ex.Tuple.(*ssa.Lookup); ok && lk.X == rows {
+					if lk, ok := ex.Tuple.(*ssa.Lookup); ok && isRows[lk.X] {
 						fromRow = true
 					}
 				}
-				if lk, ok := ia.X.(*ssa.Lookup); ok && lk.X == rows {
+				if lk, ok := ia.X.(*ssa.Lookup); ok && isRows[lk.X] {
 					fromRow = true
 				}
 			}
@@ -1104,10 +1166,14 @@ func runC19Cand(c *Ctx) {
 	}
 	// unknown key
 	okUnknown := false
-	for _, call := range findCalls(fn, "(*RuleBase).Errorf") {
+	var errCalls []ssa.CallInstruction
+	for _, f := range scope {
+		errCalls = append(errCalls, findCalls(f, "(*RuleBase).Errorf")...)
+	}
+	for _, call := range errCalls {
 		for ifi, outcome := range controllingConds(call.Block()) {
 			if ex, ok := ifi.Cond.(*ssa.Extract); ok && ex.Index == 1 && !outcome {
-				if lk, ok := ex.Tuple.(*ssa.Lookup); ok && lk.X == rows {
+				if lk, ok := ex.Tuple.(*ssa.Lookup); ok && isRows[lk.X] {
 					if f, _ := fieldLoad(call.Common().Args[1]); f == "String.Pos" {
 						okUnknown = true
 					}
